@@ -97,6 +97,13 @@ def _horner_probe(P, f, rep, where, L):
     return False
 
 
+def codec_values(fl, status):
+    """(accept, reject) return values of the internal deserialiser: the status enumerators, or true / false when it reports a boolean (how polyseed_load maps them to statuses is
+    decided by LOAD-EXITS)"""
+    if fl.d.get('ret_bits') == 1 or fl.d.get('ret_ty') == 'i1': return 1, 0
+    return status['POLYSEED_OK'], status['POLYSEED_ERR_FORMAT']
+
+
 # =====================================================================  C02
 def mul2_and_horner(ctx, rep):
     for cfg in cfgs_for(ctx):
@@ -192,11 +199,17 @@ def mul2_and_horner(ctx, rep):
             I2 = Interp(P, I.V); st2 = State(); p2 = symbolic_poly(I2, st2)
             ev = I2.run(P.fns('gf_poly_eval')[0], P.by_type(P.fns('gf_poly_eval')[0], poly=p2), st2)[0].ret
             ok = False
-            if len(outs) == 1:
+            if len(outs) == 1 and outs[0].ret.concrete() is None:
                 r = outs[0].ret
                 zi = r.zero_iff
                 if zi and zi[0] == 'allzero':
                     ok = (not zi[2]) and sorted(map(repr, zi[1])) == sorted(repr(b) for b in ev.bits if b != 0)
+            elif len(outs) >= 2 and all(o.ret.concrete() is not None for o in outs):
+                # partitioned form (any encoding of the two answers): exactly one partition is constrained to "evaluation = 0", it answers differently from all the others
+                nzb = [b for b in ev.bits if b != 0]
+                zero = [o for o in outs if all(o.state.cons.reduce(b) == 0 for b in nzb)]
+                ok = len(zero) == 1 and all(o.ret.concrete() != zero[0].ret.concrete() for o in outs if o is not zero[0]) \
+                    and len(set(o.ret.concrete() for o in outs if o is not zero[0])) == 1
             rep.check(ok, 'gf_poly_check returns (eval == 0)', '%s:%s' % ((f.file or '').replace('/repo/', ''), f.line), f.name,
                       detail=str(outs[0].ret.zero_iff)[:200] if outs else None, key='CHECK-ENC|check')
         for f in P.fns('gf_poly_encode'):
@@ -321,7 +334,7 @@ def packing(ctx, rep, want=('layout', 'inverse')):
             I3 = Interp(P, I2.V)
             st3 = o2.state
             st3.mem.new('poly2', 128, 0)
-            outs3 = I3.run(f, [Ptr('out', 0), Ptr('poly2', 0)], st3)
+            outs3 = I3.run(f, P.by_type(f, seed=Ptr('out', 0), poly=Ptr('poly2', 0)), st3)
             ok = len(outs3) == 1
             if ok:
                 for i in range(1, 16):
@@ -380,10 +393,11 @@ def storage(ctx, rep):
         st.mem.new('seed', size, U)
         outs = I.run(fl, P.by_type(fl, storage=Ptr('storage', 0), seed=Ptr('seed', 0)), st)
         oks = []; nform = 0
+        ACC, REJ = codec_values(fl, status)
         for o in outs:
             rv = o.ret.concrete() if isinstance(o.ret, BV) else None
-            if rv == status['POLYSEED_OK']: oks.append(o)
-            elif rv == status['POLYSEED_ERR_FORMAT']: nform += 1
+            if rv == ACC: oks.append(o)
+            elif rv == REJ: nform += 1
             else:
                 rep.fail('polyseed_data_load returns only OK or ERR_FORMAT', wl, fl.name, detail=str(o.ret), key='LOAD-INV|status')
         rep.check(len(oks) == 1 and nform >= 1, 'one accepting partition and %d rejecting partitions (all ERR_FORMAT)' % nform, wl, fl.name,
@@ -454,10 +468,11 @@ def storage_total(ctx, rep):
         st2.mem.new('seed2', P.structs[DATA_STRUCT]['size'], U)
         outs = I.run(fl, P.by_type(fl, storage=Ptr('img', 0), seed=Ptr('seed2', 0)), st2)
         rets = sorted(set(str(o.ret.concrete()) for o in outs))
-        rep.check(len(outs) == 1 and outs[0].ret.concrete() == status['POLYSEED_OK'], 'load(store(seed)) has the OK exit only', wl, 'polyseed_data_load on stored images',
-                  detail={'exits': rets, 'rejecting_guards': [o.state.cons.opaque[-1:] for o in outs if o.ret.concrete() != status['POLYSEED_OK']][:3]},
+        ACC, REJ = codec_values(fl, status)
+        rep.check(len(outs) == 1 and outs[0].ret.concrete() == ACC, 'load(store(seed)) has the OK exit only', wl, 'polyseed_data_load on stored images',
+                  detail={'exits': rets, 'rejecting_guards': [o.state.cons.opaque[-1:] for o in outs if o.ret.concrete() != ACC][:3]},
                   sample={'exits': rets}, key='LOAD-TOTAL|exits')
         for o in outs:
-            if o.ret.concrete() != status['POLYSEED_OK']: continue
+            if o.ret.concrete() != ACC: continue
             same = o.state.mem.objs['seed2'] == o.state.mem.objs['seed']
             rep.check(same, 'load(store(seed)) == seed, all 48 bytes', wl, 'polyseed_data_load o polyseed_data_store', key='LOAD-TOTAL|identity')
